@@ -184,16 +184,26 @@ func orderAgreementRule(P *Program, R *Report) {
 				}
 			}
 		}
-		inner := loopOver(fn, is(pdRP+"[makeslice[#i]]"))
+		// (the per-index loop may live in a helper the outer loop's body was extracted into)
+		var inner *Loop
 		var cfp *ssa.Call
-		for _, c := range callsIn(fn) {
-			if isCallTo(c, kRPCFP) {
-				cfp = c.(*ssa.Call)
+		okArgs := false
+		deepVisit(P, fn, 2, func(g *ssa.Function) {
+			if inner != nil {
+				return
 			}
-		}
+			if inner = loopOver(g, is(pdRP+"[makeslice[#i]]")); inner == nil {
+				return
+			}
+			for _, c := range callsIn(g) {
+				if isCallTo(c, kRPCFP) {
+					cfp = c.(*ssa.Call)
+					okArgs = desc(cfp.Call.Args[0]) == "<gabi.ProofD>.cachedRangeStructures[makeslice[#i]][#j]" && desc(cfp.Call.Args[2]) == pdRP+"[makeslice[#i]][#j]"
+				}
+			}
+		})
 		R.decide(rule, kProofDCC+":ascending", "the verifier visits the range-proof indices in ascending order (sorted key list)", sorted && outer != nil, "", P.Pos(fn.Pos()))
-		R.decide(rule, kProofDCC+":slice-order", "and per index the proofs in slice order, each with the structure at the same position", inner != nil && cfp != nil && inner.Body[cfp.Block()] &&
-			desc(cfp.Call.Args[0]) == "<gabi.ProofD>.cachedRangeStructures[makeslice[#i]][#j]" && desc(cfp.Call.Args[2]) == pdRP+"[makeslice[#i]][#j]", "", P.Pos(fn.Pos()))
+		R.decide(rule, kProofDCC+":slice-order", "and per index the proofs in slice order, each with the structure at the same position", inner != nil && cfp != nil && inner.Body[cfp.Block()] && okArgs, "", P.Pos(fn.Pos()))
 	}
 	// structures extracted in proof order
 	if rf := mustFunc(P, R, rule, kReconRP); rf != nil {
